@@ -43,6 +43,8 @@ pub const PROGRAMS: &[&str] = &[
     "((((((((((((((((((((((((((((((((((((((((1",
     "f(g(h([{1 : (2 + ",
     "((((((((((((((((((((((((((((((((((((((((1))))))))))))))))))))))))))))))))))))))))",
+    // a registered function that panics: the evaluation fails midway, nothing else may notice
+    "x = 4 ; y = boom(x) ; z = 5",
 ];
 
 /// programs used in the histories that contain a registration
@@ -227,6 +229,9 @@ fn compare_call(mr: &Result<Value, ()>, er: &Res<Value>, mc: &str, ec: &str, key
         (Err(()), Res::Err(_)) => {
             out.outcomes.insert("error".into());
         }
+        (Err(()), Res::Panic(m)) if prog.contains("boom(") && m.contains("boom handler") => {
+            out.outcomes.insert("handler-panic-propagated".into());
+        }
         (_, Res::Panic(m)) => {
             out.fail(format!("panic:{}", key), case, format!("{:?}: {}", prog, m));
             return;
@@ -255,7 +260,7 @@ fn run_history(ops: &[u64], world: &World, model_asts: &[Result<Ast, parse::PErr
             register_plus(world);
             *model_asts = PROGRAMS.iter().map(|p| parse::parse(p, &world.ops)).collect();
             // an AST parsed before the registration keeps its meaning; only new parses change
-            snap0 = Some(expression_engine::verif_hooks::snapshot());
+            snap0 = safe_snapshot();
             before = if i == 0 { "register".to_string() } else { format!("{},register", before) };
             out.count("transitions", 1);
             continue;
@@ -264,7 +269,7 @@ fn run_history(ops: &[u64], world: &World, model_asts: &[Result<Ast, parse::PErr
         // from the engine-independent reference parser at *that* time (kept in stored_model)
         step(&mut sys, *op, world, model_asts, &history, &before, stage, out);
         if snap0.is_none() {
-            snap0 = Some(expression_engine::verif_hooks::snapshot());
+            snap0 = safe_snapshot();
         }
         let k = KINDS[(*op as usize) % KINDS.len()];
         if i == 0 {
@@ -278,10 +283,22 @@ fn run_history(ops: &[u64], world: &World, model_asts: &[Result<Ast, parse::PErr
     if canon(&context_vars(&sys.a)) != canon(&model_vars(&sys.ma)) || canon(&context_vars(&sys.b)) != canon(&model_vars(&sys.mb)) {
         out.fail(format!("context:cross-talk:{}", before), format!("{}|{}", stage, history), format!("A={{{}}} B={{{}}} expected A={{{}}} B={{{}}}", canon(&context_vars(&sys.a)), canon(&context_vars(&sys.b)), canon(&model_vars(&sys.ma)), canon(&model_vars(&sys.mb))));
     }
-    if Some(expression_engine::verif_hooks::snapshot()) != snap0 {
-        out.fail(format!("registry-changed:{}", before), format!("{}|{}", stage, history), "parse / exec changed the contents of a global registry");
+    match safe_snapshot() {
+        None => out.fail(format!("registry-unusable:{}", before), format!("{}|{}", stage, history), "a global registry cannot be read any more (poisoned lock) after these calls"),
+        now => {
+            if now != snap0 {
+                out.fail(format!("registry-changed:{}", before), format!("{}|{}", stage, history), "parse / exec changed the contents of a global registry");
+            }
+        }
     }
     out.nontrivial.insert(hash64(&format!("{}|{}|{}", canon(&context_vars(&sys.a)), canon(&context_vars(&sys.b)), before)));
+}
+
+fn safe_snapshot() -> Option<expression_engine::verif_hooks::Snapshot> {
+    match guarded(|| Ok(expression_engine::verif_hooks::snapshot())) {
+        Res::Ok(s) => Some(s),
+        _ => None,
+    }
 }
 
 fn depth(tier: Tier) -> u32 {
@@ -339,7 +356,11 @@ impl Prop for C16 {
         }
     }
     fn run(&self, tier: Tier, stage: usize, a: u64, b: u64, out: &mut WorkerOut) {
-        let world = World::builtin();
+        let mut world = World::builtin();
+        // registered once per worker process, before anything else (a registration, not an evaluation)
+        expression_engine::register_function("boom", Arc::new(|_| panic!("boom handler")));
+        let boom: HFn = Arc::new(|_| Err(eval::EErr::Handler));
+        world.functions.insert("boom".into(), boom);
         let model_asts: Vec<Result<Ast, parse::PErr>> = PROGRAMS.iter().map(|p| parse::parse(p, &world.ops)).collect();
         if stage == 0 {
             let n = n_ops();
